@@ -6,14 +6,21 @@
 
    What main() does is the LIST OF ITS EFFECTS on the output directory, in order: the directory is created, five plots are
    drawn (each from which object into which file), and the summary {mse, mse_variance, inter_chain_mse_variance} is
-   written as JSON.  A file of the report is (output directory, name); the six names are the string constants of the source. *)
+   written as JSON.  A file of the report is (output directory, name); the six names are the string constants of the source.
+
+   Randomness (property C18).  The two predicted-vs-observed plots call seaborn.regplot, whose confidence band is a bootstrap
+   drawn from numpy.random.default_rng(seed): their events carry the `seed=` keyword main() hands to the plotting function
+   (None = the keyword is absent = regplot's default seed=None = a generator seeded from OS entropy).  Since the repair
+   "fix: analyze_model_evaluation ignored --seed" main() passes seed=args.seed to both; the pre-repair wrapper (the keyword
+   absent, --seed parsed and never read) is kept as `cli_analyze_gen false` for the refutation only. *)
 From Coq Require Import ZArith List Bool.
 From Batchie Require Import Lib.Sexp Lib.PyRt Model.Cli.
 Import ListNotations.
 Open Scope Z_scope.
 Set Implicit Arguments.
 
-Record an_args := mk_an_args { an_model_evaluation : path; an_screen : path; an_thetas : list path; an_output_dir : path }.
+Record an_args := mk_an_args { an_model_evaluation : path; an_screen : path; an_thetas : list path; an_output_dir : path;
+                               an_seed : Z }.
 
 (* the file names main() joins to --output-dir *)
 Inductive an_name : Type :=
@@ -31,8 +38,8 @@ Record an_summary (F : Type) := mk_an_summary { sum_mse : F; sum_mse_variance : 
 Inductive an_event (Ev Co F : Type) : Type :=
   | AnMkdir (d : path)                                       (* os.makedirs(d, exist_ok=True) *)
   | AnHeat (c : Co) (f : an_file)                            (* plotting.plot_correlation_heatmap(c, f) *)
-  | AnScatter (e : Ev) (f : an_file)                         (* plotting.predicted_vs_observed_scatterplot(e, f) *)
-  | AnScatterSample (e : Ev) (f : an_file)                   (* plotting.predicted_vs_observed_scatterplot_per_sample(e, f) *)
+  | AnScatter (e : Ev) (f : an_file) (seed : option Z)       (* plotting.predicted_vs_observed_scatterplot(e, f[, seed=s]) *)
+  | AnScatterSample (e : Ev) (f : an_file) (seed : option Z) (* plotting.predicted_vs_observed_scatterplot_per_sample(e, f[, seed=s]) *)
   | AnViolin (e : Ev) (f : an_file) (percentile : option Z)  (* plotting.per_sample_violin_plot(e, f[, percentile=p]) *)
   | AnSummary (s : an_summary F) (f : an_file).              (* json.dump(s, open(f, "w"), indent=4) *)
 Arguments AnMkdir {Ev Co F}.
@@ -52,9 +59,11 @@ Record an_lib (Scr Th Ev Co F : Type) := mk_an_lib {
   an_mse_variance : Ev -> F;                           (* me.mse_variance() *)
   an_inter_chain : Ev -> F }.                          (* me.inter_chain_mse_variance() *)
 
-Definition cli_analyze (Scr Th Ev Co F : Type) (L : an_lib Scr Th Ev Co F) (a : an_args)
+(* pass_seed = true: main() of the tree under test (seed=args.seed at both regplot-drawing calls); false: the wrapper before the repair *)
+Definition cli_analyze_gen (pass_seed : bool) (Scr Th Ev Co F : Type) (L : an_lib Scr Th Ev Co F) (a : an_args)
   : result (list (an_event Ev Co F)) :=
   let d := an_output_dir a in
+  let sd := if pass_seed then Some (an_seed a) else None in
   dor hs <- res_map_all (an_load_thetas L) (an_thetas a);
   dor thetas <- an_concat_thetas L hs;                  (* ALL --thetas files, chain-major, in argument order *)
   dor screen <- an_load_screen L (an_screen a);
@@ -62,11 +71,30 @@ Definition cli_analyze (Scr Th Ev Co F : Type) (L : an_lib Scr Th Ev Co F) (a : 
   dor corr <- an_correlation_matrix L screen thetas;
   Ok [AnMkdir d;
       AnHeat corr (d, N_heat);
-      AnScatter me (d, N_scatter);
-      AnScatterSample me (d, N_scatter_sample);
+      AnScatter me (d, N_scatter) sd;
+      AnScatterSample me (d, N_scatter_sample) sd;
       AnViolin me (d, N_violin) None;
       AnViolin me (d, N_violin99) (Some 99);
       AnSummary (mk_an_summary (an_mse L me) (an_mse_variance L me) (an_inter_chain L me)) (d, N_summary)].
+
+Definition cli_analyze (Scr Th Ev Co F : Type) (L : an_lib Scr Th Ev Co F) (a : an_args)
+  : result (list (an_event Ev Co F)) := cli_analyze_gen true L a.
+
+(* ---- where the bootstrap generators of a run come from (C18) ----
+   the `seed=` keywords of the regplot-drawing calls of a run, in order *)
+Definition an_regplot_seeds {Ev Co F : Type} (evs : list (an_event Ev Co F)) : list (option Z) :=
+  flat_map (fun e => match e with AnScatter _ _ s => [s] | AnScatterSample _ _ s => [s] | _ => [] end) evs.
+(* numpy.random.default_rng(s), the generator seaborn builds for regplot(seed=s): a function `of_seed` of the integer when one is
+   given; otherwise made from the entropy `w` the operating system hands out at that moment (no input of the command) *)
+Definition regplot_rng {G W : Type} (of_seed : Z -> G) (of_entropy : W -> G) (s : option Z) (w : W) : G :=
+  match s with Some z => of_seed z | None => of_entropy w end.
+(* the bootstrap generators of a run in a world whose entropy source answers w *)
+Definition an_bootstrap_rngs {Ev Co F G W : Type} (of_seed : Z -> G) (of_entropy : W -> G)
+  (r : result (list (an_event Ev Co F))) (w : W) : list G :=
+  match r with
+  | Ok evs => map (fun s => regplot_rng of_seed of_entropy s w) (an_regplot_seeds evs)
+  | Err _ => []
+  end.
 
 (* the summary a run reports (None when main() raises before writing it) *)
 Definition reported_summary {Ev Co F : Type} (r : result (list (an_event Ev Co F))) : option (an_summary F) :=
